@@ -117,7 +117,7 @@ def lean_sources_of(module: str, seen=None) -> typing.List[Path]:
 def theorem_names(module: str) -> typing.Tuple[typing.List[str], int]:
     """Names of the theorems stated in a Props module, and the number of non-vacuity examples."""
     src = strip_comments((LEAN_DIR / (module.replace(".", "/") + ".lean")).read_text())
-    names = re.findall(r"^\s*theorem\s+([\w.']+)", src, flags=re.M)
+    names = [n for n in re.findall(r"^\s*theorem\s+([\w.']+)", src, flags=re.M) if re.match(r"^C\d{2,3}\.", n)]
     examples = len(re.findall(r"^\s*example\b", src, flags=re.M))
     return names, examples
 
